@@ -351,7 +351,7 @@ func genRTConfig(t *rapid.T, withCreds bool) RTConfig {
 	c.TLSListener = rapid.IntRange(0, 3).Draw(t, "tlslistener") == 0
 	c.Retries = rapid.Bool().Draw(t, "retries")
 	nr := rapid.SampledFrom([]int{0, 0, 1, 1, 2, 3}).Draw(t, "nct")
-	prevSrc := ""
+	prevSrc, prevDst, prevWild := "", "", false
 	for i := 0; i < nr; i++ {
 		src := rapid.SampledFrom([]string{"P", "Q", "T", "S", "OA", "OB", "OL", "D"}).Draw(t, "ctsrc")
 		if i > 0 && rapid.Bool().Draw(t, "ctsamesrc") {
@@ -370,6 +370,21 @@ func genRTConfig(t *rapid.T, withCreds bool) RTConfig {
 		sh := rapid.SampledFrom([]string{srcHost, srcHost, ""}).Draw(t, "ctsh")
 		sp := rapid.SampledFrom([]string{"@" + src + ".port", "@" + src + ".port", ""}).Draw(t, "ctsp")
 		dst := rapid.SampledFrom([]string{"R", "R", "OB", "Q", "D"}).Draw(t, "ctdst")
+		if sameSrc := i > 0 && src == prevSrc; sameSrc {
+			// the pair that tells "first match" from "best match": one rule with a wildcard and one fully specified, for
+			// the same source, leading to different places
+			if prevWild {
+				sh, sp = srcHost, "@"+src+".port"
+			} else if rapid.Bool().Draw(t, "ctwildhost") {
+				sh = ""
+			} else {
+				sp = ""
+			}
+			if dst == prevDst {
+				dst = map[string]string{"R": "Q", "Q": "R", "OB": "R", "D": "R"}[dst]
+			}
+		}
+		prevWild, prevDst = sh == "" || sp == "", dst
 		dh := rapid.SampledFrom([]string{"@" + dst + ".host", "@" + dst + ".host", ""}).Draw(t, "ctdh")
 		dp := "@" + dst + ".port"
 		if sh == "" && sp == "" {
